@@ -32,7 +32,11 @@ fn alpha(cfg: &Cfg) -> Vec<Op> {
         c(DecRst(vec![7])),
         c(DecSet(vec![7])),
         c(Decstbm(Some(2), Some(rows))),
+        c(Decstbm(Some(1), Some(rows.saturating_sub(1)))),
         c(Decstbm(None, None)),
+        // park the cursor below / above the region with origin mode on (only reachable via restore)
+        c(Seq(vec![DecSet(vec![6]), Cup(Some(99), Some(2)), Decsc, Decstbm(Some(1), Some(rows.saturating_sub(1))), Decrc])),
+        c(Seq(vec![DecSet(vec![6]), Cup(Some(1), Some(2)), Decsc, Decstbm(Some(2), Some(rows)), Decrc])),
         c(DecSet(vec![47])),
         c(DecRst(vec![47])),
         c(DecSet(vec![1047])),
